@@ -226,10 +226,7 @@ Fixpoint eval (env : list val) (e : exp) : val :=
       end
   | EMask x rows =>
       match eval env x with
-      | VT t => match rows with
-                | [idx] => scalar_d (hd rO (apply_mask t rows))
-                | _ => VD (dense_of_flat [length rows] (apply_mask t rows))
-                end
+      | VT t => VD (dense_of_flat [length rows] (apply_mask t rows))      (* one entry per index row, a single row included *)
       | _ => VErr EModel
       end
   end.
@@ -328,10 +325,7 @@ Fixpoint deval (env : list val) (e : exp) : val :=
       end
   | EMask x rows =>
       match deval env x with
-      | VD a => match rows with
-                | [idx] => VD (mkD [] (fun _ => dget a idx))
-                | _ => VD (dense_of_flat [length rows] (map (dget a) rows))
-                end
+      | VD a => VD (dense_of_flat [length rows] (map (dget a) rows))
       | _ => VErr EModel
       end
   end.
